@@ -164,9 +164,9 @@ func main() {
 		return
 	}
 	rng := rand.New(rand.NewSource(*seed))
-	n2, extra, cap, nmut, nsub, nwide := 40, 24, 10, 2, 8, 3
+	n2, extra, cap, nmut, nsub, nwide := 60, 40, 12, 3, 12, 6
 	if *thorough {
-		n2, extra, cap, nmut, nsub, nwide = 0, 150, 14, 3, 12, 5
+		n2, extra, cap, nmut, nsub, nwide = 0, 200, 16, 4, 16, 8
 	}
 	c := gen.NewCorpus(rng, *thorough, n2, extra)
 	env := c.Env
@@ -331,13 +331,24 @@ func main() {
 		for k := 0; k < nwide; k++ {
 			add("wide", gs.Wide(env, rng, t, 3))
 		}
-		for _, v := range vals {
-			x := vg.Inst(v)
+		emit := func(x *ty.Val) {
 			id++
 			fmt.Fprintf(opsf, "op %d gostring %s %s\n", id, tn, x.Wire())
 			st.leaves(env, t, x)
 			if d := ptrDepth(x); d >= 2 {
 				st["ptr-chain>=2"]++
+			}
+		}
+		nalias := 0
+		for _, v := range vals {
+			x := vg.Inst(v)
+			emit(x)
+			if nalias < 3 {
+				if al := gs.Alias(x); al != nil { // the same value with equal pointer targets shared
+					nalias++
+					st["src:aliased"]++
+					emit(al)
+				}
 			}
 		}
 	}
@@ -362,7 +373,7 @@ import (
 	gs "verifharness/gostring"
 )
 
-func main() { gs.Main2(types, fns(), os.Args[1]) }
+func main() { gs.Main2(types, fns(), os.Args[1], os.Args[2]) }
 `)
 	write(filepath.Join(*out, "prelude.txt"), prelude.String())
 	write(filepath.Join(*out, "go.mod"), fmt.Sprintf("module corpus\n\ngo 1.24\n\nrequire verifharness v0.0.0\n\nreplace verifharness => %s\n", *harness))
